@@ -70,23 +70,30 @@ type OGame struct {
 }
 
 type AObs struct {
-	Kind       string  `json:"kind"` // bot | player | observer
-	Player     int     `json:"player,omitempty"`
-	B          *BView  `json:"b,omitempty"`
-	V          *PView  `json:"v,omitempty"`
-	Calls      []ACall `json:"calls"`
-	AutoJoin   int     `json:"auto_join_requests,omitempty"`
-	Status     string  `json:"status,omitempty"` // player runner: running | idle | suspended
-	ActionTime int     `json:"action_time,omitempty"`
-	System     bool    `json:"system,omitempty"`
-	Filtered   bool    `json:"filtered_status,omitempty"`
-	Pre        *OGame  `json:"pre,omitempty"`
-	View       *OGame  `json:"view,omitempty"`
-	EngineSame bool    `json:"engine_table_unchanged,omitempty"`
-	OthersSame bool    `json:"other_actors_unaffected,omitempty"`
-	TableStat  string  `json:"table_status,omitempty"`
-	Accessor   bool    `json:"adapter_accessor_probe,omitempty"` // observer: the adapter's GetGameState was called and its result filtered
-	Edge       bool    `json:"edge_of_sizing_rules,omitempty"`   // bot: the asked player's round stack was set to an edge value
+	Kind       string   `json:"kind"` // bot | player | observer
+	Player     int      `json:"player,omitempty"`
+	B          *BView   `json:"b,omitempty"`
+	V          *PView   `json:"v,omitempty"`
+	Calls      []ACall  `json:"calls"`
+	AutoJoin   int      `json:"auto_join_requests,omitempty"`
+	Status     string   `json:"status,omitempty"` // player runner: running | idle | suspended
+	ActionTime int      `json:"action_time,omitempty"`
+	System     bool     `json:"system,omitempty"`
+	Filtered   bool     `json:"filtered_status,omitempty"`
+	Pre        *OGame   `json:"pre,omitempty"`
+	View       *OGame   `json:"view,omitempty"`
+	EngineSame bool     `json:"engine_table_unchanged,omitempty"`
+	OthersSame bool     `json:"other_actors_unaffected,omitempty"`
+	TableStat  string   `json:"table_status,omitempty"`
+	Seq        []SeqReq `json:"sequence,omitempty"`               // playerseq: status calls, then a request left to run its course, ...
+	Accessor   bool     `json:"adapter_accessor_probe,omitempty"` // observer: the adapter's GetGameState was called and its result filtered
+	Edge       bool     `json:"edge_of_sizing_rules,omitempty"`   // bot: the asked player's round stack was set to an edge value
+}
+
+type SeqReq struct {
+	Events []string `json:"status_calls"` // idle | resume | suspend, made before the request is delivered
+	V      *PView   `json:"v"`
+	Calls  []ACall  `json:"calls"`
 }
 
 type ACase struct {
@@ -249,14 +256,28 @@ func runActorViews(c *ACase) {
 		b := &botSlot{id: id}
 		a := actor.NewActor()
 		b.ad = &recAdapter{inner: actor.NewTableEngineAdapter(d.te, nil), mu: &mu, calls: &b.calls}
-		a.SetAdapter(b.ad)
 		br := actor.NewBotRunner(pid(id))
 		br.OnTableAutoJoinActionRequested(func(string, string, string) {
 			mu.Lock()
 			b.autoJoin++
 			mu.Unlock()
 		})
-		a.SetRunner(br)
+		// the two setters are independent: adapter first, runner first, or an adapter that is replaced afterwards (a bot moved
+		// to another table) - the bot answers through the adapter it has when it is asked
+		switch (uint64(id) + c.Seed) % 3 {
+		case 0:
+			a.SetAdapter(b.ad)
+			a.SetRunner(br)
+		case 1:
+			a.SetRunner(br)
+			a.SetAdapter(b.ad)
+		default:
+			var stray []ACall
+			old := &recAdapter{inner: actor.NewTableEngineAdapter(d.te, nil), mu: &mu, calls: &stray}
+			a.SetAdapter(old)
+			a.SetRunner(br)
+			a.SetAdapter(b.ad)
+		}
 		return b
 	}
 	var pending sync.WaitGroup
@@ -311,7 +332,16 @@ func runActorViews(c *ACase) {
 				mu.Unlock()
 			}
 			if o.B.AtTable && !o.B.SatIn {
-				time.Sleep(130 * time.Millisecond) // the auto-join request is made 100 ms later
+				// the auto-join request is made 100 ms later (later still on a busy machine: waited for, within reason)
+				for w := 0; w < 60*slowFactor; w++ {
+					time.Sleep(10 * time.Millisecond)
+					mu.Lock()
+					n := b.autoJoin
+					mu.Unlock()
+					if n >= 1 && w >= 13 {
+						break
+					}
+				}
 			}
 			mu.Lock()
 			o.Calls = append([]ACall{}, b.calls...)
@@ -466,11 +496,20 @@ func runActorViews(c *ACase) {
 		arming bool // arms the thinking-time wait (anything but a pass, which is answered at once)
 	}
 	type pslot struct {
-		id    int
-		calls []ACall // DelayMs = ms since the history began
-		ad    *recAdapter
-		reqs  []preq
+		id      int
+		calls   []ACall // DelayMs = ms since the history began
+		ad      *recAdapter
+		reqs    []preq
+		curGame string    // the hand of the last request
+		lastAsk *pt.Table // the snapshot of the last request (re-delivered once the next hand has begun: it is out of date then)
 	}
+	// requests kept for the status sequence played at the end of the history: (snapshot, hand index), for one player
+	type askSnap struct {
+		t  *pt.Table
+		gp int
+		id int
+	}
+	var asks []askSnap
 	t00 := time.Now()
 	prs := map[int]*pslot{}
 	type oslot struct {
@@ -499,6 +538,17 @@ func runActorViews(c *ACase) {
 				}
 				sl.reqs = append(sl.reqs, preq{at: time.Since(t00).Milliseconds(), v: pviewOf(gs, gp), gp: gp, gs: relabel(gs, "", ""), arming: !gs.HasAction(gp, "pass")})
 				sl.ad.UpdateTableState(t)
+				// a late copy of the previous hand's last request arrives after the new hand's: it is out of date and must be ignored
+				if sl.lastAsk != nil && sl.curGame != gs.GameID && sampleRNG.Chance(1, 2) {
+					sl.ad.UpdateTableState(sl.lastAsk)
+				}
+				sl.curGame = gs.GameID
+				if cp, err := t.Clone(); err == nil {
+					sl.lastAsk = cp
+					if !gs.HasAction(gp, "pass") && len(asks) < 40 {
+						asks = append(asks, askSnap{t: cp, gp: gp, id: id})
+					}
+				}
 			}
 		}
 		// an observer attached the way production attaches one: the adapter is built on the table object the engine hands out, and
@@ -581,6 +631,8 @@ func runActorViews(c *ACase) {
 			c.Obs = append(c.Obs, o)
 		}
 	}
+	var askSnapT *pt.Table // the latest snapshot in which somebody was asked, and the hand it belongs to
+	askGame := ""
 	d.tap = func(t *pt.Table) {
 		defer func() {
 			if rec := recover(); rec != nil {
@@ -595,6 +647,25 @@ func runActorViews(c *ACase) {
 		}
 		if last != nil && sampleRNG.Chance(1, 6) {
 			feed(last, true) // an old view delivered again
+		}
+		// the last request of the previous hand arrives once more after the new hand has begun (a late copy): for a bot a view of
+		// another hand than the one it follows is a new hand, whatever its time stamp, and is answered
+		if g := t.State.GameState; g != nil && t.State.Status == pt.TableStateStatus_TableGamePlaying {
+			if g.GameID != askGame && askSnapT != nil && sampleRNG.Chance(1, 2) {
+				feed(askSnapT, true)
+				askSnapT = nil
+			}
+			for _, p := range g.Players {
+				if len(p.AllowedActions) > 0 {
+					if cp, err := t.Clone(); err == nil {
+						if g.GameID != askGame {
+							askGame = g.GameID
+						}
+						askSnapT = cp
+					}
+					break
+				}
+			}
 		}
 		persistent(t)
 		if cp, err := t.Clone(); err == nil {
@@ -633,6 +704,20 @@ func runActorViews(c *ACase) {
 		}
 		if _, res := d.Advance(pol); res != "ok" {
 			break
+		}
+	}
+	// now and then the table is closed in the middle of one more hand: the snapshot published for that still carries the hand
+	if c.Seed%5 == 3 {
+		for step := 0; step < 40; step++ {
+			tt := d.te.GetTable()
+			if g := tt.State.GameState; tt.State.Status == pt.TableStateStatus_TableGamePlaying && g != nil && g.Status.CurrentEvent == "RoundStarted" {
+				d.te.CloseTable()
+				d.Quiesce(quiesceLimit)
+				break
+			}
+			if _, res := d.Advance(pol); res != "ok" {
+				break
+			}
 		}
 	}
 	d.tap = nil
@@ -691,6 +776,65 @@ func runActorViews(c *ACase) {
 	}
 	pending.Wait()
 	c.Settled = d.Abs().GameCount
+	// ---- one runner taken through status calls (Idle / Resume / Suspend) with requests left to run their course in between: who is
+	// suspended - and therefore answered for at once - is decided by the model from the calls and the time-outs
+	if c.Seed%2 == 0 {
+		count := map[int]int{}
+		best := 0
+		for _, a := range asks {
+			count[a.id]++
+			if count[a.id] > count[best] {
+				best = a.id
+			}
+		}
+		var mine []askSnap
+		for _, a := range asks {
+			if a.id == best && len(mine) < 3 {
+				mine = append(mine, a)
+			}
+		}
+		scripts := [][][]string{
+			{{"idle"}, {"resume"}, {}},    // idle, one time-out, resumed: running again, the count forgotten
+			{{"idle"}, {}, {}},            // idle, two time-outs in a row: suspended
+			{{"suspend"}, {"resume"}, {}}, // suspended, resumed
+		}
+		script := scripts[int(c.Seed/2)%len(scripts)]
+		if len(mine) == 3 {
+			calls := []ACall{}
+			ad := &recAdapter{inner: actor.NewTableEngineAdapter(d.te, nil), mu: &mu, calls: &calls, t0: time.Now()}
+			a := actor.NewActor()
+			a.SetAdapter(ad)
+			pr := actor.NewPlayerRunner(pid(best))
+			a.SetRunner(pr)
+			o := AObs{Kind: "playerseq", Player: best, ActionTime: set.Meta.ActionTime, TableStat: "table_game_playing"}
+			for k, ask := range mine {
+				for _, e := range script[k] {
+					switch e {
+					case "idle":
+						pr.Idle()
+					case "resume":
+						pr.Resume()
+					case "suspend":
+						pr.Suspend()
+					}
+				}
+				mu.Lock()
+				calls = calls[:0]
+				mu.Unlock()
+				ad.t0 = time.Now()
+				ad.UpdateTableState(ask.t)
+				time.Sleep(time.Duration(set.Meta.ActionTime)*time.Second + 600*time.Millisecond)
+				mu.Lock()
+				got := append([]ACall{}, calls...)
+				mu.Unlock()
+				for i := range got {
+					got[i].Accepted = tryOnEngine(ask.t.State.GameState, ask.gp, got[i])
+				}
+				o.Seq = append(o.Seq, SeqReq{Events: script[k], V: pviewOf(ask.t.State.GameState, ask.gp), Calls: got})
+			}
+			c.Obs = append(c.Obs, o)
+		}
+	}
 }
 
 // a table played by bots only, wired as in production: every hand must reach settlement and every call a bot
@@ -921,6 +1065,16 @@ func (o AObs) Coq() string {
 			v = "(Some " + o.V.Coq() + ")"
 		}
 		return fmt.Sprintf("OBot (mkbv %v %v %v %v %v %v %v) %s %s %d", o.B.AtTable, o.B.SatIn, o.B.HasGame, o.B.NewGame, o.B.Fresher, o.B.Playing, o.B.DealtIn, v, coqCalls(o.Calls), o.AutoJoin)
+	case "playerseq":
+		rs := make([]string, len(o.Seq))
+		for i, q := range o.Seq {
+			evs := make([]string, len(q.Events))
+			for k, e := range q.Events {
+				evs[k] = map[string]string{"idle": "RIdle", "resume": "RResume", "suspend": "RSuspend"}[e]
+			}
+			rs[i] = fmt.Sprintf("([%s], %s, %s)", strings.Join(evs, "; "), q.V.Coq(), coqCalls(q.Calls))
+		}
+		return fmt.Sprintf("OPlayerSeq %s [%s]", coqZi(o.ActionTime), strings.Join(rs, "; "))
 	case "player":
 		if o.Status == "superseded" {
 			return fmt.Sprintf("OSuperseded %s %s", o.V.Coq(), coqCalls(o.Calls))
